@@ -524,6 +524,7 @@ func main() {
 	coreFacts(&b, &f)
 	cronrecFacts(&b)    // C02 facts (cronrec.go)
 	cronLoadedFacts(&b) // F24 facts (cron_loaded.go)
+	pendingRefFacts(&b) // F32 facts (jobctl_pending.go)
 	jcstatusFacts(&b)   // C15 facts (jcstatus.go)
 	taskfnFacts(&b)     // C08 C10 C11 C12 facts (taskfn_facts.go)
 	retryFacts(&b)      // C20 facts (retry_facts.go)
